@@ -27,13 +27,13 @@ if h:
             if os.path.exists(ip):
                 txt = open(ip).read()
                 last = txt.strip().split("\n")[-1]
-                c.cov["cases_where_windowed_and_ideal_search_differ"] = last
+                c.cov["windowed_vs_ideal_and_tameness"] = last
                 c.log.write(txt[:5000])
 c.finish(
     assumptions=[
         "H-regexp: Go's regexp package implements markerRegexp / startRegexp as the hand-written matcher SeqScan.line_marker / start_here does",
         "H-parse (theorems): the object parser is suffix-stable on complete chunks, fails with Malformed or EOF on proper prefixes of a chunk and never returns another error class on in-memory data; exercised on the implementation for every cut",
-        "theorems are stated for the search without buffer windows (SeqScan.ideal_scan); scanner.Find's windows are modelled (win_scan) and tied by correspondence on every case; the number of cases on which the two differ is recorded (cases_where_windowed_and_ideal_search_differ)",
+        "theorems are about scanner.Find with its buffer windows (SeqScan.scan_windows) and hold for tame files whose header lies within the first 1024 bytes: at every line start no marker text followed by a word character, and no marker text longer than regexpOverlap = 64 bytes; tameness is evaluated for every generated file (windowed_vs_ideal_and_tameness)",
         "writer-shaped files: no object streams; chunk interiors free of an EOL followed by a marker",
     ],
     trusted=[
@@ -42,6 +42,6 @@ c.finish(
         "the outcome of scanner.ReadIndirectObject at each located candidate is taken from the implementation (verif hook FileInfo.VerifParse), not modelled",
     ],
     partial=[
-        "prefix_complete_partial, no_abort_partial, xref_damage_partial: proved for SeqScan.scan_ideal (scanner.Find without its 1024/64-byte windows)",
+        "window_pre_F24_refuted documents the pre-fix variant of the model (scan_windows_pre_F24); no theorem about the current code is partial",
     ],
 )
